@@ -86,6 +86,17 @@ def f64_key(x):
     return [neg, str(m), q]
 
 
+def dec_key(d):
+    """a Decimal as the Lean model holds it (its as_tuple())"""
+    sign, digits, exp = d.as_tuple()
+    neg = bool(sign)
+    if exp == "F":
+        return ["inf", neg]
+    if exp in ("n", "N"):
+        return ["nan", neg, exp == "N", "".join(map(str, digits)) or "0"]
+    return ["fin", neg, "".join(map(str, digits)) or "0", exp]
+
+
 def ref_of(cls):
     return {"module": cls.__module__, "path": cls.__qualname__.split(".")}
 
@@ -102,6 +113,8 @@ def to_json(o):
         return {"t": "int", "v": str(o)}
     if type(o) is float:
         return {"t": "float", "repr": repr(o), "num": num_key(o), "f64": f64_key(o)}
+    if type(o) is Decimal:
+        return {"t": "decimal", "repr": repr(o), "num": num_key(o), "dec": dec_key(o)}
     if type(o) is str:
         return {"t": "str", "v": o, "repr": repr(o)}
     if isinstance(o, bytes):
@@ -278,6 +291,13 @@ def build_val(j, b: Built):
         return int(j["v"])
     if t == "float":
         return float(j["repr"])
+    if t == "decimal":
+        kind, neg, *rest = j["dec"]
+        if kind == "inf":
+            return Decimal("-Infinity" if neg else "Infinity")
+        if kind == "nan":
+            return Decimal((int(neg), tuple(int(c) for c in rest[1].lstrip("0")), "N" if rest[0] else "n"))
+        return Decimal((int(neg), tuple(int(c) for c in rest[0]), rest[1]))
     if t == "str":
         return j["v"]
     if t == "bytes":
@@ -559,7 +579,7 @@ def hash_key(j):
         return ("num", "1/1" if j["v"] else "0/1")
     if t == "int":
         return ("num", f"{int(j['v'])}/1")
-    if t in ("float", "opaque") and isinstance(j.get("num"), list):
+    if t in ("float", "opaque", "decimal") and isinstance(j.get("num"), list):
         return ("num", "/".join(j["num"]))
     if t in ("str", "qname"):
         return ("s", j.get("v", j.get("text")))
@@ -678,7 +698,7 @@ def rand_default(rng, world_so_far):
     if r < 0.60:
         while True:
             v = rand_scalar(rng, enums)
-            if v["t"] in ("float", "opaque") and v.get("num") == "nan":  # NaN defaults: identity shortcuts, not modelled
+            if v["t"] in ("float", "opaque", "decimal") and v.get("num") == "nan":  # NaN defaults: identity shortcuts, not modelled
                 continue
             if v["t"] == "opaque" and v["path"][0] in ("XmlPeriod", "XmlDuration"):  # unhashable: dataclasses wants a factory
                 return {"factory": v}
@@ -1013,8 +1033,10 @@ def features(a):
             fs.add("nested-model" if len(j["path"]) > 1 else "model")
         elif t == "float":
             fs.add("float-nonfinite" if not isinstance(j["num"], list) else "float")
+        elif t == "decimal":
+            fs.add("decimal")
         elif t == "opaque":
-            fs.add("decimal" if j["path"] == ["Decimal"] else "xml-datatype")
+            fs.add("xml-datatype")
         elif t == "dict":
             fs.add("dict+" if j["items"] else "dict0")
         elif t in ("bytes", "list"):
@@ -1264,6 +1286,37 @@ def classify_lit(a, o):
     return kind + " " + ("+".join(feats) or ("esc" if "\\" in t else "plain"))
 
 
+def gen_decrepr(rng, tier):
+    """Decimal values by their as_tuple(): every notation boundary of str() (exponent 0, ≤ 0 with / without leading zeros,
+    the 1e-6 switch to scientific, positive exponents, one and many digits), zeros of both signs, specials with payloads"""
+    for neg in (False, True):
+        for c in ("0", "1", "5", "10", "15", "100", "12345", "99999999999999999999"):
+            for x in (0, 1, 2, 3, -1, -2, -4, -5, -6, -7, -8, -10, -19, -20, -21, -26, -30, 30, 999999):
+                yield {"dec": ["fin", neg, c, x]}
+        yield {"dec": ["inf", neg]}
+        for sg in (False, True):
+            for p in ("0", "1", "123", "9" * 30):
+                yield {"dec": ["nan", neg, sg, p]}
+    for _ in range(1500 if tier == "quick" else 30000):
+        c = str(rng.choice([0, rng.randrange(10), rng.randrange(10**4), rng.randrange(10**12), rng.randrange(10**30)]))
+        yield {"dec": ["fin", rng.random() < 0.5, c, rng.choice([0, 0, rng.randint(-40, 40), rng.randint(-8, 2), rng.randint(-400, 400)])]}
+
+
+def impl_decrepr(a):
+    d = build_val({"t": "decimal", "dec": a["dec"]}, None)
+    r = repr(d)
+    back = eval(r, {"Decimal": Decimal})  # noqa: S307
+    return ok({"repr": r, "back": back.as_tuple() == d.as_tuple()})
+
+
+def classify_decrepr(a, o):
+    r = o["ok"]["repr"]
+    kind = a["dec"][0]
+    if kind != "fin":
+        return kind + (" payload" if kind == "nan" and a["dec"][3] != "0" else "") + (" signaling" if kind == "nan" and a["dec"][2] else "")
+    return "fin " + ("sci" if "E" in r else "plain") + (" point" if "." in r else "") + (" zero" if a["dec"][2].strip("0") == "" else "")
+
+
 def gen_pyeq(rng, tier):
     """Python == vs pyEq: scalars x scalars (numeric tower, QName/str, bytes
     subclasses, NaN, specials), containers, and instances of two dataclasses
@@ -1300,7 +1353,7 @@ def gen_pyeq(rng, tier):
 def classify_pyeq(a, o):
     def kind(j):
         t = j["t"]
-        if t in ("bool", "int", "float") or (t == "opaque" and j.get("num") is not None):
+        if t in ("bool", "int", "float", "decimal") or (t == "opaque" and j.get("num") is not None):
             return "num"
         return {"str": "text", "qname": "text", "list": "seq", "tuple": "seq", "set": "set", "opaque": "opaque"}.get(t, t)
 
@@ -1393,6 +1446,8 @@ CORRS = [
          describe="CPython's reading of a whole str literal (either quote, all escapes) vs decodeStrLit (model may decline)"),
     Corr("c18.byteslit", gen_byteslit, impl_byteslit, compare=compare_dq, classify=classify_lit, nontrivial=lambda a, o: "\\" in a["t"],
          describe="CPython's reading of a whole bytes literal vs decodeBytesLit (model may decline)"),
+    Corr("c18.decrepr", gen_decrepr, impl_decrepr, classify=classify_decrepr,
+         describe="repr(Decimal) (= Decimal('<str(d)>'), the decimal module's scientific notation) and its evaluation vs decRepr / readDecimal"),
     Corr("c18.pyeq", gen_pyeq, impl_pyeq, classify=classify_pyeq, describe="Python == on scalar/collection values vs pyEq"),
     Corr("c18.json", gen_json, impl_json, classify=classify_text, nontrivial=lambda a, o: len(a["s"]) > 0,
          describe="json.dumps(s, ensure_ascii=False) vs jsonDumps (every code point below U+0250, then random)"),
@@ -1508,7 +1563,7 @@ def _defaults(a):
 def has_snan(a):
     """a signaling NaN in the value or in a class default (both sides of `default == value`)"""
     vals = [a["val"], *_defaults(a)]
-    return any(j["t"] == "opaque" and j.get("num") == "snan" for v in vals for j in walk_vals(v))
+    return any(j["t"] == "decimal" and j.get("num") == "snan" for v in vals for j in walk_vals(v))
 
 
 def _map_everywhere(a, quiet):
@@ -1529,7 +1584,7 @@ def _map_everywhere(a, quiet):
 
 
 def _quiet_snan(a):
-    return _map_everywhere(a, lambda j: J(Decimal("NaN")) if j["t"] == "opaque" and j.get("num") == "snan" else None)
+    return _map_everywhere(a, lambda j: J(Decimal("NaN")) if j["t"] == "decimal" and j.get("num") == "snan" else None)
 
 
 def _drop_odd_enum(a):
@@ -1752,25 +1807,28 @@ LEVEL_TEXT = (
     "(render_refuses_or_round_trips, code_rt_partial: nested classes and enums, tuples, sets, frozensets, QNames, str and bytes of "
     "any content, ...); every name the source uses is bound to the class it means (imports_sufficient, full strength); repr() of "
     "every str (for every printability table) and of every bytes value is read back by the parser as that value "
-    "(str_repr_roundtrips, bytes_repr_roundtrips), as is the literal written for a QName text, lone surrogates included "
+    "(str_repr_roundtrips, bytes_repr_roundtrips), likewise repr(float) for every binary64 value (float_repr_evaluates_back, from C05's "
+    "float_repr_rt) and repr(Decimal) for every Decimal (decimal_repr_evaluates_back), as is the literal written for a QName text, lone surrogates included "
     "(qname_codepoints_roundtrip). One region remains excluded from the round trip, a proved counterexample and a replayed "
-    "finding: more than 200 nested brackets (CPython's tokenizer limit, probed each run). Enum members whose name is not an "
+    "finding: more than 200 nested brackets (CPython's tokenizer limit, probed each run); attributes of init=False fields changed "
+    "after construction are not restored (explicit hypothesis initFalseAtDefault, proved counterexample, finding), and a "
+    "Decimal('sNaN') compared with a numeric default makes render itself raise (modelled: cmpRaises; finding). Enum members whose name is not an "
     "ASCII identifier or is a keyword are outside the model (listed finding). The model is tied to /repo by comparing the exact "
     "emitted text and the exec outcome on generated dataclasses and values (also several renders on one serializer), repr() and "
     "literal parsing of str/bytes, json.dumps and the QName literal on every code point below U+0250, surrogates and random "
     "strings, Python == on 94x94 value pairs, and the theorem's claim is re-checked on the real code wherever its hypotheses hold."
 )
 LEVEL_NOTE = (
-    "Trusted: Lean kernel; CPython's parsing of the emitted text into the modelled AST (string/bytes literal decoding, the "
-    "bracket nesting limit and repr(str)/repr(bytes) are modelled and compared) and the repr/eval round trip of finite floats, "
-    "Decimal and xsdata date/time values (their repr is an input); Fraction() as the numeric value used for ==; the sampling "
-    "correspondence check. IntEnum/StrEnum/Flag, NaN-valued defaults, signalling NaN, dict/set permutations and duplicate "
-    "collapse, dataclass instances as dict keys or set elements, generators, NamedTuples and classes defined inside functions "
-    "are not modelled."
+    "Trusted: Lean kernel; CPython's tokenising of the emitted text into the modelled AST (string/bytes literal decoding, the "
+    "bracket nesting limit, repr(str)/repr(bytes), float()/repr(float) (C05's exact binary64 model, float_repr_rt) and "
+    "Decimal(str)/str(Decimal) are modelled, proved to round-trip and compared with the interpreter); the repr/eval round "
+    "trip of xsdata date/time values (their repr is an input); the sampling correspondence check. IntEnum/StrEnum/Flag, "
+    "NaN-valued defaults, dict/set permutations and duplicate collapse, a signaling NaN inside a dict/set comparison, dataclass "
+    "instances as dict keys or set elements, generators, NamedTuples and classes defined inside functions are not modelled."
 )
 TRUSTED = [
     "CPython parses the emitted text into the PyExpr AST the model evaluates (the text itself is compared character by character with the real output)",
-    "repr()/literal round trip of finite float, Decimal and XmlDate/XmlTime/XmlDateTime/XmlDuration/XmlPeriod is taken from the interpreter (repr strings are inputs of the model); for str and bytes the repr is an input too, but every input is checked against the model's own pyReprStr/pyReprBytes and the domain predicate asks that it decodes to the value",
+    "repr()/constructor round trip of XmlDate/XmlTime/XmlDateTime/XmlDuration/XmlPeriod is taken from the interpreter (repr strings are inputs of the model); for str, bytes, float and Decimal the repr is an input too, but every input is checked against the model's own pyReprStr / pyReprBytes / F64.repr / decRepr and the theorems str_repr_roundtrips, bytes_repr_roundtrips, float_repr_evaluates_back, decimal_repr_evaluates_back show it is read back as the value",
     "numeric == between bool/int/float/Decimal is exact comparison of fractions.Fraction values supplied by the harness",
     "format pieces (indent, float(\"…\"), QName(\"…\") and its escapes for all ASCII characters, import line, enum member, bracket layout of every array kind) and dir(builtins) are regenerated by probing the live functions and tied to the model by the theorems literal_formats, layout_probes, qname_escapes_ascii",
 ]
